@@ -80,6 +80,37 @@ def gen_equal_mag_list(rnd, by_dim, leaves):
     return None
 
 
+L_ = lambda n: ("leaf", n)
+# distinct *products* of named units that are quantity-equivalent (coherent SI units, magnitude 1): the ordering of unit products
+# has to break the tie the same way whatever the argument order
+EQUIV_PRODUCTS = {
+    "energy": [("mul", L_("Newtons"), L_("Meters")), ("mul", L_("Watts"), L_("Seconds")), ("mul", L_("Pascals"), ("pow", L_("Meters"), 3)), ("mul", L_("Volts"), L_("Coulombs")), L_("Joules"),
+               ("mul", ("mul", L_("Volts"), L_("Amperes")), L_("Seconds"))],
+    "power": [("div", L_("Joules"), L_("Seconds")), ("mul", L_("Volts"), L_("Amperes")), ("div", ("mul", L_("Newtons"), L_("Meters")), L_("Seconds")), L_("Watts")],
+    "charge": [("mul", L_("Amperes"), L_("Seconds")), ("mul", L_("Farads"), L_("Volts")), L_("Coulombs"), ("div", L_("Webers"), L_("Ohms"))],
+    "pressure": [("div", L_("Newtons"), ("pow", L_("Meters"), 2)), ("div", L_("Joules"), ("pow", L_("Meters"), 3)), L_("Pascals")],
+    "voltage": [("div", L_("Watts"), L_("Amperes")), ("div", L_("Joules"), L_("Coulombs")), L_("Volts"), ("div", L_("Webers"), L_("Seconds")), ("mul", L_("Amperes"), L_("Ohms"))],
+}
+
+
+def gen_equiv_product_list(rnd, leaves, units):
+    fam = rnd.choice(sorted(EQUIV_PRODUCTS))
+    trees = rnd.sample(EQUIV_PRODUCTS[fam], min(len(EQUIV_PRODUCTS[fam]), rnd.choice([2, 3, 3, 4])))
+    items = []
+    for t in trees:
+        e = model.ev(t, leaves)
+        expr = f"au::{t[1]}" if t[0] == "leaf" else f"decltype({model.spell(t, 'unit', units)})"
+        items.append((expr, e.mag, model.spell(t, "unit", units).replace("au::", "").replace("{}", "")))
+    if len({model.ekey(x[1]) for x in items}) != 1:
+        raise core.Inconclusive(f"equivalent-product table: {fam} members do not have one magnitude (unit definitions changed?)")
+    if rnd.random() < 0.4:  # plus a scaled member, so that the common unit is not simply one of them
+        sc = rnd.choice(SCALES[:11])
+        t = trees[0]
+        items.append((f"decltype({model.spell(t, 'unit', units)} * {model.mag_spell(sc)})", model.emul(items[0][1], model.mag_eval(sc)), f"({items[0][2]})*{model.mag_spell(sc)}"))
+    rnd.shuffle(items)
+    return items
+
+
 def gen_list(rnd, by_dim, leaves, units, named_decls, irrational=False):
     """-> list of (type expression, mag, label) of one dimension, pairwise distinct magnitudes"""
     dims = [d for d, ns in by_dim.items() if d != ()]
@@ -160,7 +191,10 @@ def run(chk, which="C07"):
         sid = 1
         lists = []
         while len(lists) < per_tu:
-            if rnd.random() < 0.18:
+            r_ = rnd.random()
+            if r_ < 0.08:
+                L = gen_equiv_product_list(rnd, leaves, units)
+            elif r_ < 0.24:
                 L = gen_equal_mag_list(rnd, by_dim, leaves)
             else:
                 L = gen_list(rnd, by_dim, leaves, units, decls, irrational=(rnd.random() < 0.15))
